@@ -25,10 +25,33 @@ def content(pt, kind, seed):
     return {"g": "rand", "seed": seed, "lo": 0, "hi": 1 if info["comp"] != "f32" else 0, "flo": 0.0, "fhi": 1e-3}
 
 
-def tol_class(pt, alpha):
+KIND_MAG = {"rand": 2.0, "max": 1.0, "narrow": 1.0, "tiny": 1e-3, "alpha": 1.0}
+
+
+def fcontent(pt, kind, seed, w, h, alpha):
+    """float images resized with alpha handling: colours in [0, 1], alpha in [0.5, 1] (the divide by a resampled alpha that
+    cancels to ~0 amplifies any rounding difference without bound; that regime is C01's, judged with exact arithmetic)"""
+    info = rz.PT[pt]
+    if not (alpha and info["alpha"] and info["comp"] == "f32"):
+        return content(pt, kind, seed), kind
+    r = random.Random(seed)
+    nc = info["nc"]
+    vals = []
+    for _ in range(w * h):
+        vals += [rz.f32bits(r.random()) for _ in range(nc - 1)] + [rz.f32bits(0.5 + 0.5 * r.random())]
+    return {"g": "data", "v": vals}, "alpha"
+
+
+def tol_class(pt, alpha, kind="rand", sumabs=1.5):
+    """tolerance class of the statement. Floats: "the f32 rounding of a re-associated f64 sum" is relative to the magnitude of
+    the summed terms, not of a result that cancels: a difference of `ulps` units at the magnitude M = max|source| * (sum|w|)^2
+    (biased exponent mexp) is allowed, i.e. ulps * 2^(mexp - exponent(result)) units of the result"""
     info = rz.PT[pt]
     if info["comp"] == "f32":
-        return ("memo_f32", ("dst",), {"ulps": 4, "thr": rz.f32key(2.0 * 2.0 ** -18)})
+        import math
+        mag = KIND_MAG[kind] * sumabs * sumabs
+        return ("memo_f32", ("dst",), {"ulps": 16 if alpha and info["alpha"] else 4, "thr": rz.f32key(2.0 * 2.0 ** -18),
+                                       "mexp": 127 + int(math.floor(math.log2(mag)))})
     if pt in ("U16x2", "U16x4") and alpha:
         return ("memo_pm1", ("dst",), {})
     return ("memo_exact", ("digest",), {})
@@ -65,11 +88,12 @@ def gen(tier, rng):
                 if n % 7 == 0 and geo[0] >= 3 and geo[1] >= 2:
                     Q = 2
                     box = (1, 1, 2 * geo[0] - 2, 2 * geo[1] - 1)
-                chk, log, echo = tol_class(pt, alpha)
+                cont, kind = fcontent(pt, kind, n, geo[0], geo[1], alpha)
+                chk, log, echo = tol_class(pt, alpha, kind)
                 g += 1
                 for cpu in rz.CPUS:
                     cases.append(rz.resize_case(pt, geo[0], geo[1], geo[2], geo[3], alg=alg, flt=flt, m=1 + n % 3, alpha=alpha, box=box, Q=Q,
-                                                cpu=cpu, src_c=content(pt, kind, n), src_lay={"k": "image_ref", "guard": 1},
+                                                cpu=cpu, src_c=cont, src_lay={"k": "image_ref", "guard": 1},
                                                 dst_lay={"k": "slice", "guard": 1}, log=log,
                                                 chk=("pipeline", "ret_ok", "outside") + ((chk,) if cpu != "none" else ()), g=g, echo=echo))
     # single-pass plans with a non-zero row / column offset (integer crop origin, one extent unchanged): the kernels'
@@ -88,23 +112,25 @@ def gen(tier, rng):
                         box = (1 + n % 4, off, dw, dh * 2 + 1 if n % 2 else max(1, dh // 2))
                     sw, sh = box[0] + box[2] + 1 + n % 2, box[1] + box[3] + n % 3
                     alpha = n % 3 == 0
-                    chk, log, echo = tol_class(pt, alpha)
+                    cont, kind = fcontent(pt, "rand", n, sw, sh, alpha)
+                    chk, log, echo = tol_class(pt, alpha, kind)
                     g += 1
                     for cpu in rz.CPUS:
                         cases.append(rz.resize_case(pt, sw, sh, dw, dh, alg=rz.pick(n, 135, ["conv", "interp"]), flt=flt, alpha=alpha, box=box, Q=1, cpu=cpu,
-                                                    src_c=content(pt, "rand", n), src_lay={"k": "image_ref", "guard": 1},
+                                                    src_c=cont, src_lay={"k": "image_ref", "guard": 1},
                                                     dst_lay={"k": "crop_mut", "pad": [1, 1, 1, 2], "guard": 1} if n % 2 else {"k": "slice", "guard": 1},
                                                     log=log, chk=("pipeline", "ret_ok", "outside") + ((chk,) if cpu != "none" else ()), g=g, echo=echo))
     if tier != "quick":
         for i in range(8000):
             kw = rz.random_resize_kw(rng, maxdim=70)
-            chk, log, echo = tol_class(kw["pt"], kw["alpha"])
             g += 1
             seed = rng.randint(1, 10 ** 9)
             kind = rng.choice(["rand", "rand", "max", "narrow", "tiny"])
+            cont, kind = fcontent(kw["pt"], kind, seed, kw["sw"], kw["sh"], kw["alpha"])
+            chk, log, echo = tol_class(kw["pt"], kw["alpha"], kind)
             for cpu in rz.CPUS:
                 cases.append(rz.resize_case(kw["pt"], kw["sw"], kw["sh"], kw["dw"], kw["dh"], alg=kw["alg"], flt=kw["flt"], m=kw["m"], alpha=kw["alpha"],
-                                            box=kw["box"], Q=kw["Q"], cpu=cpu, src_c=content(kw["pt"], kind, seed), src_lay={"k": "image_ref", "guard": 1},
+                                            box=kw["box"], Q=kw["Q"], cpu=cpu, src_c=cont, src_lay={"k": "image_ref", "guard": 1},
                                             dst_lay={"k": "slice", "guard": 1}, log=log,
                                             chk=("pipeline", "ret_ok", "outside") + ((chk,) if cpu != "none" else ()), g=g, echo=echo))
     # custom filters that force other fixed-point precisions (sum |w| < 4: max weight 1 + 2a)
